@@ -89,7 +89,7 @@ fn compare(ex: &Exec, model: &[String], outdir: &str, suite: &str, max: usize) -
         for i in starts[c]..starts[c + 1] {
             let r = &ex.replies[i];
             let m0 = model.get(i).cloned().unwrap_or_else(|| "<no reply>".to_string());
-            let m = if ex.lines[i].starts_with("dot") && !m0.starts_with("panic") { reparse::canon_dot(&m0) } else { m0 };
+            let m = if ex.lines[i].starts_with("dot") && !m0.starts_with("panic") && !ex.abs { reparse::canon_dot(&m0) } else { m0 };
             if *r != m {
                 let file = format!("{}/{}.case{}.ops", outdir, suite, c + 1);
                 let mut body = String::new();
@@ -146,6 +146,10 @@ fn run_one_suite(suite: &str, seed: u64, thorough: bool, driver: &str, outdir: &
     h ^= seed.wrapping_mul(0x9E3779B97F4A7C15);
     let mut cx = Ctx { ex: Exec::new(beacon), rng: Rng(h), thorough, samples: vec![], notes: vec![] };
     cx.ex.log_prefix = Some(format!("{}/{}", outdir, suite));
+    if std::env::var("VERIF_ABSTRACT").map_or(false, |v| v == "1") {
+        cx.ex.begin_case();
+        cx.ex.step("mode abstract");
+    }
     let _ = std::fs::remove_file(format!("{}/{}.failures.jsonl", outdir, suite));
     let known = gen::run_suite(suite, &mut cx);
     if !known {
